@@ -217,19 +217,48 @@ def t_compare(T, tier):
             return NotImplemented
         w.hooks['native_call_sym'] = native_sym
 
-        def run(it, op=op):
+        nf = z3.Const('NOT_FOUND_obj', V)
+        w.global_overrides[(FMOD, 'NOT_FOUND')] = SVal(nf)
+        base_ident = w.hooks.get('identical')
+
+        def identical(it, a, b, nf=nf, base_ident=base_ident):
+            # `value is NOT_FOUND`: NOT_FOUND is one object
+            ta = a.term if isinstance(a, SVal) else None
+            tb = b.term if isinstance(b, SVal) else None
+            if ta is not None and tb is not None and (z3.eq(ta, nf) or z3.eq(tb, nf)):
+                return it.wrap(ta == tb)
+            return base_ident(it, a, b) if base_ident is not None else NotImplemented
+        w.hooks['identical'] = identical
+
+        def run(it, op=op, nf=nf):
             v, l = it.ctx.fresh('value', V), it.ctx.fresh('literal', V)
             kt = it.world.key_const(it, op)
-            it.ctx.witness_fn = lambda model: {'kind': 'compare', 'op': op}
+            it.ctx.witness_fn = lambda model, v=v: {'kind': 'compare', 'op': op, 'absent': bool(z3.is_true(model.eval(v == nf, model_completion=True)))}
+            # the absent-tag object (class _NotFoundValue, checked below): not a Bool; == and != with it are false; it has no ordering (A-disp: TypeError)
+            it.ctx.assume(z3.Not(KD.is_kind(nf, ['bool'])))
+            it.ctx.assume(l != nf)
+            if op in ('==', '!='):
+                it.ctx.assume(z3.And(z3.Not(cmp_raises(kt, nf, l)), z3.Not(cmp_val(kt, nf, l))))
+            else:
+                it.ctx.assume(cmp_raises(kt, nf, l))
             r = it.call(w.function(FMOD, '_compare'), [op, SVal(v), SVal(l)])
             rt = it.truth_term(r) if not isinstance(r, bool) else z3.BoolVal(r)
             for ax in KD.axioms():
                 it.ctx.assume(ax)
             mixed = KD.is_kind(v, ['bool']) != KD.is_kind(l, ['bool'])       # a Bool against another kind: unequal and unordered
+            it.ctx.oblige('_compare/ensures.false_when_the_tag_is_absent', z3.Implies(v == nf, z3.Not(rt)))
             it.ctx.oblige('_compare/ensures.false_if_incomparable_else_the_comparison',
-                          rt == z3.If(mixed, z3.BoolVal(op == '!='), z3.And(z3.Not(cmp_raises(kt, v, l)), cmp_val(kt, v, l))))
+                          z3.Implies(v != nf, rt == z3.If(mixed, z3.BoolVal(op == '!='), z3.And(z3.Not(cmp_raises(kt, v, l)), cmp_val(kt, v, l)))))
             it.ctx.oblige('_compare/ensures.returns_bool', z3.BoolVal(isinstance(r, (bool, SBool))))
         T.explore(w, run, 'op=%s' % op)
+    # the absent-tag object: its class answers == and != with False and defines no ordering
+    try:
+        cls = extract.module(FMOD).classes['_NotFoundValue']
+        meths = {n: ast.unparse(f.body[-1]) for n, f in cls.methods.items()}
+        okc = meths.get('__eq__') == 'return False' and meths.get('__ne__') == 'return False' and not ({'__lt__', '__le__', '__gt__', '__ge__'} & set(meths))
+    except Exception as e:
+        okc, meths = False, {'error': str(e)}
+    T._add(Obligation('_compare/absent_tag_object_answers_eq_and_ne_with_False_and_has_no_ordering', 'proved' if okc else 'unknown', 'ast', 0.0, 'ast:_NotFoundValue', reason='' if okc else repr(meths), kind='structure'))
     # the operator table maps each Haystack operator to the Python operator of the same meaning
     m = extract.module(FMOD)
     try:
